@@ -233,6 +233,14 @@ def _main(a, seed, t_start):
             known_lines.append('KNOWN-FINDING: property=%s %s' % (prop, k['text']))
 
     def is_known(name, detail=None):
+        import re as _re
+        m = _re.search(r'\.known-([A-Za-z0-9]+)', name)
+        if m:
+            for k in kf:
+                if k.get('status') == 'known' and k.get('id') == m.group(1):
+                    k['_hit'] = True
+                    return k
+            return None
         for k in kf:
             if k.get('status') == 'known' and k.get('_still') is not False:
                 for pat in k.get('obligations', []):
@@ -240,6 +248,10 @@ def _main(a, seed, t_start):
                         return k
         return None
 
+    known_undecided = [o for o in undecided if '.known-' in o.name and is_known(o.name) is not None]
+    undecided = [o for o in undecided if o not in known_undecided]
+    for o in known_undecided:
+        known_match.append((o.name, is_known(o.name)['id']))
     # ---- violations
     violations = []
     os.makedirs(os.path.join(HERE, 'replays', prop), exist_ok=True)
@@ -314,7 +326,7 @@ def _main(a, seed, t_start):
     # ---- report
     wall = time.time() - t_start
     n_ob, n_dis = len(real), len(discharged)
-    n_known_ref = len([1 for o in refuted if is_known(o.name) is not None])
+    n_known_ref = len([1 for o in refuted if is_known(o.name) is not None]) + len(known_undecided)
     evidence = {
         'property_id': prop, 'tier': tier, 'seed': seed, 'level': 'proof',
         'coverage': {
